@@ -910,6 +910,7 @@ package redis
 //@   requires @pending-calls-wellformed forall k string :: smhas[u.createClientCalls][k] ==> typeis(smval[u.createClientCalls][k], "*createClientCall") && ifaceptr(smval[u.createClientCalls][k], "*createClientCall") != nil && ifaceptr(smval[u.createClientCalls][k], "*createClientCall").done != nil
 //@   modifies all, smhas, smval
 //@   ensures @client-or-error result1 == nil ==> result0 != nil
+//@   proves @ret:2 @a-waiter-gets-the-outcome-of-the-very-attempt-it-waited-for result0 == call.res && result1 == call.err && waitedfor(call.done)
 //@   ensures @argument-arrays-keep-their-length forall x *simpleRequest :: x != nil && x.body != nil ==> x.body == old(x.body) && len(x.body.Array) == old(len(x.body.Array))
 //@   assume @ret forall x *simpleRequest :: x != nil && x.body != nil ==> x.body == old(x.body) && len(x.body.Array) == old(len(x.body.Array))
 //@   ensures @pending-calls-wellformed forall k string :: smhas[u.createClientCalls][k] ==> typeis(smval[u.createClientCalls][k], "*createClientCall") && ifaceptr(smval[u.createClientCalls][k], "*createClientCall") != nil && ifaceptr(smval[u.createClientCalls][k], "*createClientCall").done != nil
@@ -926,6 +927,7 @@ package redis
 //@ func (*client).loopWrite
 //@   prop C02 C01
 //@   alsoprop C11 : no-panic
+//@   alsoprop C13 C14 : tokens
 //@   callpre SetResponse @locally-built-replies-are-one-line oneline(arg1)
 //@   flag tokens
 //@   requires c != nil
